@@ -50,6 +50,13 @@ def heap_sort(name: str):
 apply_fn = z3.Function("apply_fn", Val, SEQV, Val)  # value of a callable on an argument tuple
 gather = z3.Function("gather", MAPV, SEQV, SEQV)  # [m[k] for k in s]
 str_of = z3.Function("str_of", Val, STR)  # str(x)/repr(x)/format: opaque
+# products / quotients of two symbolic reals are uninterpreted (the SMT core's
+# nonlinear arithmetic is incomplete and derails quantified proofs); linear facts
+# and syntactic equalities of products are what the structural contracts need.
+mul_fn = z3.Function("mul", REAL, REAL, REAL)
+div_fn = z3.Function("div", REAL, REAL, REAL)
+key_index = z3.Function("key_index", SEQV, Val, INT)  # position of a key in a duplicate-free key sequence
+all_in = z3.Function("all_in", SEQV, SETV, BOOL)  # every element of the sequence is in the set
 seq_remove = z3.Function("seq_remove", SEQV, Val, SEQV)  # sequence with the first occurrence of an element removed
 
 
